@@ -135,7 +135,11 @@ class _UnionNormType(_BasicNormType):
             return (id(obj.origin), *(self._make_tiebreaker(arg) for arg in obj.args))
         if isinstance(obj, tuple):
             return tuple(self._make_tiebreaker(element) for element in obj)
-        return (id(type(obj)), )
+        try:
+            obj_hash = hash(obj)  # metadata of Annotated can have the same text (field with repr=False)
+        except TypeError:
+            obj_hash = 0
+        return (id(type(obj)), obj_hash)
 
     def _order_args(self, args: VarTuple[BaseNormType]) -> VarTuple[BaseNormType]:
         args_list = list(args)
